@@ -119,6 +119,19 @@ def gen_cases(rnd, tier):
             lits.append(("item", case_item(it)[0]))
         except valrig.Unobservable:
             pass
+    # every token sequence of length <= 2 (quick: every third) / <= 3 (thorough): termination, rejection, agreement with the model
+    import itertools
+    depth = 3 if tier == "thorough" else 2
+    k = 0
+    for d in range(1, depth + 1):
+        for toks in itertools.product(TOKENS, repeat=d):
+            k += 1
+            if tier != "thorough" and d == 2 and k % 3:
+                continue
+            try:
+                lits.append(("tokens", case_text(" ".join(toks), 0)))
+            except (valrig.Unobservable, RecursionError):
+                pass
     # random token strings (termination / agreement with the model)
     for _ in range(300 if tier == "quick" else 3000):
         toks = [rnd.choice(TOKENS) for _ in range(rnd.randint(0, 40))]
